@@ -380,6 +380,7 @@ def run(ctx, rep):
     nsens = h4(ctx, rep, entries, O)
     nids = h3(ctx, rep, entries)
     nparse = h5(ctx, rep, evp, rp, loc_of(pb))
+    nadd = h6(ctx, rep, entries, O)
     rep.analysed = {"entries": [x[0] for x in entries], "loops": nloops, "order_sensitive_sites": nsens, "id_uses": nids,
                     "parsers": nparse}
     rep.analysed["unrolled_hash_loops"] = nunrolled
@@ -387,6 +388,8 @@ def run(ctx, rep):
     rep.floor("unrolled-hash-loops", nunrolled, 150)
     rep.floor("id-uses", nids, 20)
     rep.floor("parsers", nparse, 4)
+    rep.analysed["line_reductions"] = nadd
+    rep.floor("line-reductions", nadd, 100)
 
 
 # ------------------------------------------------------------------------------------------ H1
@@ -838,6 +841,69 @@ def h3(ctx, rep, entries):
         else:
             rep.discharged("C10/H3/%s" % ename, "ids occur only under equality, set membership, construction, sort key and formatting")
     return n
+
+
+# ------------------------------------------------------------------------------------------ H6
+def h6(ctx, rep, entries, O):
+    """Splitting a line into several with the same tags whose values add up: every sum taken over the
+    component lines must have a summand that vanishes when the line's own values vanish (a necessary
+    condition of additivity in the values; a summand that ignores the line's values - a count, or another
+    component's energy added once per line - is multiplied by the split)."""
+    total = 0
+    for ename, ev, r, where in entries:
+        if ename == "from_str":
+            continue
+        A = alg.Algebra()
+        roots = [r]
+        seen = set()
+        bad = {}
+        n = 0
+        for root in roots:
+            for t in tm.subterms(root):
+                if t.id in seen:
+                    continue
+                seen.add(t.id)
+                lam = None
+                if t.op in ("sumover", "vsumover"):
+                    src, lam = t.a[0], t.a[1]
+                elif t.op == "sum" and t.a[0].op == "map":
+                    src, lam = t.a[0].a[0], t.a[0].a[1]
+                elif t.op == "count":
+                    src = t.a[0]
+                else:
+                    continue
+                if O.of(src) != "lines":
+                    continue
+                n += 1
+                if lam is None:
+                    bad.setdefault("count", t)
+                    continue
+                el = tm.sym("cls:line")
+                body = tm.apply_lam(lam, [el])
+                sub = {}
+                for x in tm.subterms(body):
+                    if x.op == "proj" and x.a[3] == "values":
+                        y = x
+                        while y.op == "proj":
+                            y = y.a[0]
+                        if y is el:
+                            sub[x] = tm.mk("rep", tm.ZERO, tm.sym("cls:nsteps"))
+                b0 = tm.subst(body, sub) if sub else body
+                try:
+                    z = A.pw(b0).is_zero() if t.op == "vsumover" else A.scalar(b0).is_zero()
+                except alg.NotScalar:
+                    z = False
+                if not z:
+                    bad.setdefault(t.op, t)
+        total += n
+        for k, t in sorted(bad.items()):
+            rep.violated("C10/H6/%s/%s" % (ename, k), "one component written as several lines adding up to it gives the same result",
+                         construct=where, why="a sum over the component lines has a summand that does not vanish with the line's values "
+                         "(it is repeated once per line): %s" % tm.show(t, 4)[:300])
+        if not bad:
+            rep.discharged("C10/H6/%s" % ename, "every sum over component lines has a summand that vanishes with the line's own values",
+                           derivation="%d reductions" % n)
+    return total
 
 
 # ------------------------------------------------------------------------------------------ H5
